@@ -89,6 +89,8 @@ var catalogue = []catLine{
 	// several labels carry one value (also the stream label app="x"): a stage that matches by value must still match by name
 	{`{"level":"x","v":4,"msg":"x","n":{"a":"x"}}`, `level=x v=4 msg=x n_a=x`},
 	{`{"level":"info","v":6,"msg":"info","n":{"a":"info"}}`, `level=info v=6 msg=info n_a=info`},
+	// JSON escape sequences in string values (the logfmt twin stays plain: its quoting rules are another grammar)
+	{`{"level":"info","v":8,"msg":"say \"hi\"\\ \u00e9\n","n":{"a":"tab\there\/"}}`, `level=info v=8 msg=plain n_a=y`},
 }
 
 func (s Stage) render() string {
